@@ -36,7 +36,8 @@ def adjacent_ok(a, b):
 def render(us, style, rng, record=None):
     """style: 'line' (one token per line), 'single' (one line, pragmas excepted), 'tight' (no blank
     wherever two tokens may be adjacent), 'indent' (random
-    blanks/tabs/newlines), 'markers' (linemarkers between arbitrary tokens).
+    blanks/tabs/newlines), 'markers' (linemarkers between arbitrary tokens), 'samemarker' (the *same*
+    linemarker before every token: all tokens get one and the same file:line:column).
     record: optional list receiving (spelling, line, col, file) per token as laid out."""
     parts = []
     line, col, file = 1, 1, None
@@ -61,6 +62,11 @@ def render(us, style, rng, record=None):
                     record.append((val, state["line"], state["col"] + 8, state["file"]))
             put("#pragma" + (" " + val if val else "") + "\n")
             continue
+        if style == "samemarker":
+            if state["col"] != 1:
+                put("\n")
+            parts.append('# 1 "t.c"\n')
+            state["line"], state["col"], state["file"] = 1, 1, "t.c"
         if style == "markers" and rng.random() < 0.25:
             if state["col"] != 1:
                 put("\n")
@@ -77,7 +83,7 @@ def render(us, style, rng, record=None):
         if record is not None:
             record.append((val, state["line"], state["col"], state["file"]))
         put(val)
-        if style == "line":
+        if style in ("line", "samemarker"):
             put("\n")
         elif style == "single":
             put(" ")
